@@ -172,6 +172,12 @@ impl World {
                 }
             }
             Some((nums, style, status)) => {
+                if self.rc.moves.iter().any(|m| *m == Move::NULL) {
+                    // a chain holding a null move (possible only through the unsafe routes) cannot be
+                    // printed in SAN by design
+                    self.stats.hit("note.print-skipped-null-move-in-chain");
+                    return Ok(());
+                }
                 let want = self.expected_styled(nums, style, status, p.custom);
                 if want.is_none() || p.custom > (1u64 << 32) {
                     self.stats.hit("note.print-outside-bounds");
